@@ -264,6 +264,7 @@ pub struct LinkState {
     /// budget exhausted: the link stops carrying traffic (bounds the memory of undrained queues)
     pub over_budget: bool,
     pub log_truncated: bool,
+    pub log_truncated_at_ns: u64,
     real_ids: std::collections::HashSet<[u8; 16]>,
     delivered_flows: std::collections::HashSet<(u8, u64)>,
     forge_as_drop: bool,
@@ -318,6 +319,7 @@ impl LinkState {
             bytes_moved: 0,
             over_budget: false,
             log_truncated: false,
+            log_truncated_at_ns: u64::MAX,
             real_ids: Default::default(),
             delivered_flows: Default::default(),
             forge_as_drop: plan.forge_as_drop,
@@ -369,7 +371,10 @@ impl LinkState {
         }
         if self.log.len() >= LOG_CAP {
             // memory bound for pathological (livelocked) runs: keep simulating, stop recording
-            self.log_truncated = true;
+            if !self.log_truncated {
+                self.log_truncated = true;
+                self.log_truncated_at_ns = now_ns();
+            }
             return self.passthrough(packet);
         }
         let t = now_ns();
